@@ -53,6 +53,8 @@ class Spec:
         if self.kind == "storage":
             return CSRStorage(self.size, reset=self.reset, fields=flds, atomic_write=self.atomic, write_from_dev=self.wfd, name=name, n=self.n)
         if self.kind == "status":
+            if flds:
+                return CSRStatus(fields=flds, name=name, n=self.n)
             return CSRStatus(self.size, fields=[], name=name, read_only=self.read_only, n=self.n)
         return CSR(self.size, name=name, n=self.n)
 
@@ -128,6 +130,8 @@ class CsrHarness(Harness):
                 sig["fields"] = [(D.i(getattr(r.fields, fn)), sz, o, p) for (fn, sz, o, p, _) in (s.fields or [])]
             elif s.kind == "status":
                 sig = dict(status=D.i(r.status), we=D.i(r.we), re=D.i(r.re))
+                # a status built from fields: the device drives the field signals, `status` is their documented composition
+                sig["sfields"] = [(D.i(getattr(r.fields, fn)), sz, o) for (fn, sz, o, p, _) in (s.fields or [])]
                 if not s.read_only:
                     sig["r"] = D.i(r.r)
             else:
@@ -192,7 +196,10 @@ class CsrHarness(Harness):
             v[self.re], v[self.adr] = 1, b[1]
         for m, op in zip(self.regs, dv):
             s = m["sig"]
-            if m["kind"] == "status":
+            if m["kind"] == "status" and s["sfields"]:
+                for (fi, sz, o) in s["sfields"]:
+                    v[fi] = (pat(op[1], m["size"]) >> o) & ((1 << sz) - 1)
+            elif m["kind"] == "status":
                 v[s["status"]] = pat(op[1], m["size"])
             elif m["kind"] == "raw":
                 v[s["w"]] = pat(op[1], m["size"])
@@ -254,6 +261,10 @@ class CsrHarness(Harness):
             elif m["kind"] == "status":
                 r_, re_d = s0
                 cur = pat(op[1], m["size"])
+                if sg["sfields"]:
+                    cur = sum(((cur >> o) & ((1 << sz) - 1)) << o for (fi, sz, o) in sg["sfields"])     # gaps between fields read 0
+                    if v[sg["status"]] != cur:
+                        return env, ("field.offset", f"r{m['k']}.status exp {cur:#x} (fields at their declared offsets) got {v[sg['status']]:#x}"), 0
                 exp_we = int(bool(last and rd))
                 if v[sg["we"]] != exp_we:
                     return env, ("strobe.we", f"r{m['k']}.we exp {exp_we} got {v[sg['we']]}"), 0
@@ -320,6 +331,9 @@ for b in (8, 32):
             specs=[S("storage", fields=[("a", 2, 0, True, 0), ("b", 3, 3, False, 5), ("c", 2, b, False, 1)]), S("storage", 2)], busword=b, ordering=ordering)
     reg(f"bank[bus{b},big] storage(fields: a@0:2, b@4:3 reset5, c@auto:2 reset2, d@auto:1 pulse) storage(2)", "quick",
         specs=[S("storage", fields=[("a", 2, 0, False, 0), ("b", 3, 4, False, 5), ("c", 2, None, False, 2), ("d", 1, None, True, 0)]), S("storage", 2)],
+        busword=b, ordering="big")
+    reg(f"bank[bus{b},big] status(fields: a@0:2, b@3:3, c@{b}:2, d@auto:1) storage(2)", "quick",
+        specs=[S("status", fields=[("a", 2, 0, False, 0), ("b", 3, 3, False, 0), ("c", 2, b, False, 0), ("d", 1, None, False, 0)]), S("storage", 2)],
         busword=b, ordering="big")
     reg(f"bank[bus{b},big,sorted] storage(4,n=2) storage({b+1}) status(3)", "quick",
         specs=[S("storage", 4, n=2), S("storage", b + 1), S("status", 3)], busword=b, ordering="big", sort=True)
@@ -434,6 +448,9 @@ class SramDUT(Module):
         self.bus = csr_bus.Interface(data_width=busword, address_width=14)
         self.mem = Memory(width, depth, init=[(0x11*(i + 1)) & ((1 << width) - 1) for i in range(depth)], name="m")
         b1 = csr_bus.Interface(data_width=busword, address_width=14)
+        if read_only == "tagged":          # the memory itself carries the read-only mark
+            self.mem.bus_read_only = True
+            read_only = None
         self.submodules.sram = sram = csr_bus.SRAM(self.mem, address, read_only=read_only, bus=b1, paging=paging)
         buses = [b1]
         self.page = None
@@ -539,6 +556,7 @@ SRAMS = {}
 for nm, tier, kw in [
     ("csr.SRAM(8x4,bus8)", "quick", dict(width=8, depth=4)),
     ("csr.SRAM(8x4,bus8,read_only)", "quick", dict(width=8, depth=4, read_only=True)),
+    ("csr.SRAM(8x4,bus8,memory tagged bus_read_only)", "quick", dict(width=8, depth=4, read_only="tagged")),
     ("csr.SRAM(16x2,bus8)", "quick", dict(width=16, depth=2)),
     ("csr.SRAM(12x2,bus8)", "thorough", dict(width=12, depth=2)),
     ("csr.SRAM(4x4,bus8,addr2)", "quick", dict(width=4, depth=4, address=2)),
